@@ -88,49 +88,79 @@ impl Family for Scope {
                 files.push(text);
             }
         }
-        let written = format!("{}{}", if case["global"] == true { "::" } else { "" }, strs(&case["segs"]).join("::"));
-        let scope = strs(&case["scope"]).join("::");
-        files.push(format!("module {scope}\n{}", use_of(pos, &written)));
-        let mut ref_index = files.len() - 1;
+        // one reference (MC_NameTable: fields of the case itself) or several (MC_TwoRefs: "refs"), each in a file of its own
+        let ref_cases: Vec<Value> = match case.get("refs").and_then(|r| r.as_array()) {
+            Some(a) => a.clone(),
+            None => vec![json!({"scope": case["scope"], "segs": case["segs"], "global": case["global"], "expect": case["expect"]})],
+        };
+        let mut ref_files: Vec<usize> = Vec::new();
+        for r in &ref_cases {
+            let written = format!("{}{}", if r["global"] == true { "::" } else { "" }, strs(&r["segs"]).join("::"));
+            let scope = strs(&r["scope"]).join("::");
+            files.push(format!("module {scope}\n{}", use_of(pos, &written)));
+            ref_files.push(files.len() - 1);
+        }
         if case["rev"] == true {
             files.reverse();
-            ref_index = 0;
+            let n = files.len();
+            for f in ref_files.iter_mut() {
+                *f = n - 1 - *f;
+            }
         }
         let refs: Vec<&str> = files.iter().map(|s| s.as_str()).collect();
         let rendered = json!({"files": files});
         let key = hash_str(&rendered.to_string());
         let state = slicec::compile_from_strings(&refs, None);
         let clean = !state.diagnostics.has_errors();
-        let bound = if clean { binding(&state.files[ref_index], pos) } else { Value::Null };
+        let bounds: Vec<Value> = ref_files.iter().map(|f| if clean { binding(&state.files[*f], pos) } else { Value::Null }).collect();
         let diags = state.into_diagnostics(&Default::default());
-        let mut codes: Vec<String> = diags.iter().filter(|d| d.level() == DiagnosticLevel::Error).map(|d| d.code().to_owned()).collect();
-        codes.sort();
-        codes.dedup();
-        let expect = &case["expect"];
-        let fail = match expect["res"].as_str().unwrap_or("") {
-            "bound" => {
-                let k = strs(&expect["key"]);
-                let want = if expect["kind"] == "alias" {
-                    json!({"f": "prim", "n": "int32"})
-                } else {
-                    json!({"f": "named", "target": k.join("::"), "tk": expect["kind"], "name": k.last()})
-                };
-                if !clean {
-                    Some(mismatch("a reference that designates a suitable entity was rejected", want, json!(codes)))
-                } else if bound != want {
-                    Some(mismatch("the reference is bound to another entity than the scoping rules designate", want, bound))
-                } else {
-                    None
+        let errs: Vec<(String, String)> = diags
+            .iter()
+            .filter(|d| d.level() == DiagnosticLevel::Error)
+            .map(|d| (d.code().to_owned(), d.span().map(|s| s.file.clone()).unwrap_or_default()))
+            .collect();
+        let mut fail = None;
+        for (k, r) in ref_cases.iter().enumerate() {
+            let expect = &r["expect"];
+            // the error codes reported in the file of this reference
+            let mut codes: Vec<String> = errs.iter().filter(|(_, f)| *f == format!("string-{}", ref_files[k])).map(|(c, _)| c.clone()).collect();
+            codes.sort();
+            codes.dedup();
+            let f = match expect["res"].as_str().unwrap_or("") {
+                "bound" => {
+                    let key = strs(&expect["key"]);
+                    let want = if expect["kind"] == "alias" {
+                        json!({"f": "prim", "n": "int32"})
+                    } else {
+                        json!({"f": "named", "target": key.join("::"), "tk": expect["kind"], "name": key.last()})
+                    };
+                    if !codes.is_empty() {
+                        Some(mismatch("a reference that designates a suitable entity was rejected", want, json!(codes)))
+                    } else if clean && bounds[k] != want {
+                        Some(mismatch("the reference is bound to another entity than the scoping rules designate", want, json!({"reference": k, "bound": bounds[k]})))
+                    } else {
+                        None
+                    }
                 }
-            }
-            code => {
-                if codes != [code.to_owned()] {
-                    Some(mismatch("a reference that designates nothing / something of the wrong kind", json!([code]), json!({"codes": codes, "bound": bound})))
-                } else {
-                    None
+                code => {
+                    if codes != [code.to_owned()] {
+                        Some(mismatch("a reference that designates nothing / something of the wrong kind", json!([code]), json!({"reference": k, "codes": codes, "bound": bounds[k]})))
+                    } else {
+                        None
+                    }
                 }
+            };
+            if f.is_some() {
+                fail = f;
+                break;
             }
-        };
+        }
+        // an error anywhere else (not in a referencing file) is no business of these arrangements
+        if fail.is_none() {
+            if let Some((c, f)) = errs.iter().find(|(_, f)| !ref_files.iter().any(|r| *f == format!("string-{r}"))) {
+                fail = Some(mismatch("an error outside the referencing files", json!([]), json!([c, f])));
+            }
+        }
         let nontrivial = placed.iter().filter(|k| *k != "none").count() >= 1;
         Outcome { fail, nontrivial, key, rendered }
     }
